@@ -95,6 +95,9 @@ pub fn names() -> Vec<Vec<u8>> {
         b"..csv".to_vec(),
         b"a.csv.swp".to_vec(),
         b"sp ace.csv".to_vec(),
+        // editor temporaries whose names are not valid UTF-8
+        b"caf\xE9.txt~".to_vec(),
+        b".caf\xE9.csv.swp".to_vec(),
         // names that end in the letters of an extension without the dot
         b"acsv".to_vec(),
         b"csv".to_vec(),
